@@ -24,7 +24,8 @@ PROPS = {
              "drawn pod objects vanishing in between, second pass judged against the owners established by the first); "
              "non-trivial = a trim/gc/sync pass over >= 1 bound address, or a release pass with >= 1 bound address whose pod is gone. "
              "Closed loop: 4-30 (thorough 50) steps over <= 4 (6) pods of create / ADD (optionally reporting the pod IP) / delete object / "
-             "phase Succeeded|Failed / DEL (current, superseded or unknown container id) / flush (may fail) / agent GC (PodExist truthful, failing, "
+             "phase Succeeded|Failed / DEL (current, superseded or unknown container id) / flush (may fail) / flushadd (the reporter tick runs, a CNI ADD for a pod completes "
+             "while the tick's write to the API server is in flight, and that write fails) / agent GC (PodExist truthful, failing, "
              "stale-true; write may fail) / 5-minute job / reconcile (forced GC, full sync, status-write failure or conflict, cloud faults) / "
              "agent restart / controller restart, plus bindings that pre-exist the history with or without a recorded UID and running pods that report "
              "addresses the record has not linked to them yet (take-over by the first reconcile); two thirds of the steps "
@@ -48,12 +49,14 @@ PROPS = {
         ],
         level_text="generated records and generated histories of the two-process protocol run through the real controller and the real node agent "
                    "against an oracle written from the statement; bounded liveness (pod gone and teardown reported => freed by the next fault-free "
-                   "reconcile) and the agent-side clause (every `deleted` that appears belongs to a pod whose DEL was processed or that a GC verified "
+                   "reconcile) and the agent-side clause (every `deleted` that appears belongs to a pod whose DEL was processed and that has not been given a sandbox again since, or that a GC verified "
                    "gone) are checked on every step; exploration, not proof",
         level_note="trusts controller-runtime's fake client as the API server (status subresources, index on spec.nodeName; the interceptor drops "
                    "status on create of NodeRuntime as a real API server does) and a 400-line cloud stub; the agent is assembled from its real parts "
                    "without NewCRDV2's controller manager and timers (the 3 s flush, the 5 min job, the GC loop and the reconcile queue are history "
-                   "actions), steps are sequential (no ADD racing a reconcile inside one step); the kernel side of the agent GC runs against the "
+                   "actions), steps are sequential except flushadd, which runs an ADD inside the reporter's API write (the only owned interleaving; after every ADD the "
+                   "harness waits for the allocator's own goroutine, which cancels the pod's pending record after the reply); the listed finding "
+                   "C03-readd-stale-deleted is excused only when `deleted` was written in a step before the re-ADD's step; the kernel side of the agent GC runs against the "
                    "loopback device of a private netns; go map iteration inside the code under test is not owned by the seed",
         tests=[
             dict(unit="c03_node", test="TestVerifC03Functions", quick=20000, thorough=1000000),
